@@ -64,12 +64,32 @@ NOISE = {"self", "Some", "None", "Ok", "Err", "Into", "into", "map", "as_ref", "
          "then", "then_some", "copied", "cloned", "get", "try_from", "TryFrom", "bytes", "as_bytes", "iso", "b", "c", "s"}
 
 
-def arg_source(expr, params):
-    """the parameter an argument expression is built from ('self' for the receiver, '?' if none / several)"""
+def local_defs(body):
+    """`let <name>[: T] = <expr>;` bindings of a body (simple names only; tuple / struct patterns are not resolved)"""
+    out = {}
+    for st in split_top(body, ";"):
+        m = re.match(r"^let\s+(?:mut\s+)?([a-z_][a-z_0-9]*)\s*(?::[^=]+)?=(?!=)\s*(.*)$", st.strip(), flags=re.S)
+        if m:
+            out.setdefault(m.group(1), m.group(2))
+    return out
+
+
+def arg_source(expr, params, locals_=None, provider="provider"):
+    """the parameter an argument expression is built from ('self' for the receiver, '?' if none / several).  A local
+    of the wrapper stands for the parameters its defining expression mentions (same level of abstraction as an
+    inline conversion `f(param)`)."""
     e = expr.strip()
-    if e in ("&*provider", "&provider", "provider"):
+    if e in ("&*" + provider, "&" + provider, provider):
         return "provider"
     ids = [m.group(0) for m in IDENT.finditer(e)]
+    if locals_ and len(ids) >= 1 and not any(p in ids for p in params):
+        # one level of resolution: the argument is (built from) a local
+        extra = []
+        for x in ids:
+            if x in locals_ and x not in params:
+                extra += [m.group(0) for m in IDENT.finditer(locals_[x])]
+        if extra and any(p in extra for p in params):
+            ids = extra
     hits = [p for p in params if p in ids]
     if len(hits) == 1:
         return hits[0]
@@ -157,6 +177,68 @@ def lock_aliases(cdir):
     return out
 
 
+def provider_runners(cdir, aliases):
+    """names of helpers of the convenience layer that run a closure with the locked provider and do nothing else:
+    `fn name<..>(f: impl FnOnce(&P) -> R) -> R { let g = <lock alias>()?; f(&g) }` (or with the lock expression)"""
+    out = []
+    for root, _, files in os.walk(cdir):
+        for f in files:
+            if not f.endswith(".rs"):
+                continue
+            src = strip_comments(open(os.path.join(root, f)).read())
+            for m in re.finditer(r"\bfn\s+(\w+)\s*(?:<[^>]*>)?\s*\(\s*(\w+)\s*:[^{;]*\{", src):
+                b0 = m.end() - 1
+                try:
+                    body = re.sub(r"\s+", "", src[b0 + 1:match_brace(src, b0)])
+                except ValueError:
+                    continue
+                fn = m.group(2)
+                lock = r"(?:" + "|".join([re.escape(a) + r"\(\)" for a in aliases] +
+                                         [r'TZ_PROVIDER\.lock\(\)\.map_err\(\|_\|TemporalError::general\("[^"]*"\)\)']) + r")"
+                if re.fullmatch(r"let(\w+)=" + lock + r"\?;" + re.escape(fn) + r"\(&\*?\1\)", body):
+                    out.append(m.group(1))
+    return out
+
+
+def tail_call(last, callee):
+    """`last` is exactly one forwarding call `recv.callee(args)` / `Type::callee(args)` - nothing before or after"""
+    m = re.match(r"^(?:self(?:\.0|\.iso)?|(?:[A-Z]\w*)(?:::[A-Z]\w*)*)\s*(?:\.|::)\s*" + re.escape(callee) + r"\s*\(", last)
+    if not m:
+        return False
+    p0 = m.end() - 1
+    try:
+        return match_brace(last, p0, "(", ")") == len(last) - 1
+    except ValueError:
+        return False
+
+
+def body_shape(body, callee):
+    """number of statements of a wrapper body when the forwarding call is its result (else 99).  The result may be
+    written as the tail call itself, as `Ok(call?)`, or bound to a local that is then returned."""
+    stmts = [x.strip() for x in split_top(body, ";")]
+    if not stmts:
+        return 99
+    n = len(stmts)
+    last = stmts[-1]
+    m = re.match(r"^Ok\s*\((.*)\?\s*\)$", last, flags=re.S)
+    mo = re.fullmatch(r"Ok\s*\(\s*([a-z_][a-z_0-9]*)\s*\)", last)
+    if m:
+        last = m.group(1).strip()
+    elif mo and n >= 2:
+        # `let r = call?; Ok(r)`
+        m2 = re.match(r"^let\s+" + re.escape(mo.group(1)) + r"\s*(?::[^=]+)?=(?!=)\s*(.*)\?$", stmts[-2], flags=re.S)
+        if m2:
+            last = m2.group(1).strip()
+            n -= 1
+    elif re.fullmatch(r"[a-z_][a-z_0-9]*", last) and n >= 2:
+        # `let r = call; r`
+        m2 = re.match(r"^let\s+" + re.escape(last) + r"\s*(?::[^=]+)?=(?!=)\s*(.*)$", stmts[-2], flags=re.S)
+        if m2:
+            last = m2.group(1).strip()
+            n -= 1
+    return n if tail_call(last, callee) else 99
+
+
 def lean_str(s):
     return '"' + s.replace("\\", "\\\\").replace('"', '\\"') + '"'
 
@@ -172,6 +254,7 @@ def main():
     # only the files that are modules of the crate (`mod x;` in compiled/mod.rs) are part of the build
     declared = set(re.findall(r"\bmod\s+(\w+)\s*;", strip_comments(open(os.path.join(cdir, "mod.rs")).read())))
     aliases = lock_aliases(cdir)
+    runners = provider_runners(cdir, aliases)
     for root, _, files in os.walk(cdir):
         for f in sorted(files):
             if not f.endswith(".rs") or f == "tests.rs":
@@ -183,16 +266,26 @@ def main():
             for ty, name, params, has_self, body in parse_fns(src):
                 # the wrapper takes the shared provider: directly, or through a helper of this layer whose whole
                 # body is the lock expression (checked in lock_aliases)
+                runner = re.fullmatch(r"\s*(\w+)\s*\(\s*\|\s*(\w+)\s*\|\s*(.*)\)\s*", body, flags=re.S)
+                if runner and runner.group(1) in runners:
+                    # `with_provider(|p| call(.., p))`: the helper takes the lock and runs the closure (checked in
+                    # provider_runners); the closure body is the forwarding call
+                    inner, pname = runner.group(3).strip(), runner.group(2)
+                    if inner.startswith("{") and inner.endswith("}"):
+                        inner = inner[1:-1].strip()
+                    callee, args, _ = first_inner_call(inner, with_provider_only=True)
+                    srcs = [arg_source(a, params, None, pname) for a in args]
+                    rows.append(("compiled", ty, name, (["self"] if has_self else []) + params, callee,
+                                 (["self"] if has_self else []) + srcs, 2 if tail_call(inner, callee) else 99))
+                    continue
                 if "TZ_PROVIDER" not in body and not any(re.search(r"\b" + a + r"\s*\(\s*\)", body) for a in aliases):
                     continue
                 callee, args, _ = first_inner_call(body, with_provider_only=True)
-                srcs = [arg_source(a, params) for a in args]
+                srcs = [arg_source(a, params, local_defs(body)) for a in args]
                 # shape of the body: number of top-level statements (lock; forwarding call — anything more touches
-                # the arguments or the result), and whether the forwarding call is the tail expression
-                stmts = split_top(body, ";")
-                tail_is_call = bool(stmts) and re.match(r"^(self\b|[A-Z]\w*::)", stmts[-1].strip()) is not None and callee in stmts[-1]
+                # the arguments or the result), and whether the forwarding call is the result
                 rows.append(("compiled", ty, name, (["self"] if has_self else []) + params, callee,
-                             (["self"] if has_self else []) + srcs, len(stmts) if tail_is_call else 99))
+                             (["self"] if has_self else []) + srcs, body_shape(body, callee)))
     # ---- FFI layer
     fdir = os.path.join(REPO, "temporal_capi", "src")
     enums = []
@@ -202,7 +295,7 @@ def main():
         src = open(os.path.join(fdir, f)).read()
         for ty, name, params, has_self, body in parse_fns(src):
             callee, args, recv = first_inner_call(body)
-            srcs = [arg_source(a, params) for a in args]
+            srcs = [arg_source(a, params, local_defs(body)) for a in args]
             rows.append(("capi", ty, name, (["self"] if has_self else []) + params, callee,
                          (["self"] if has_self and recv.startswith("self") else []) + srcs, 0))
         clean = strip_comments(src)
